@@ -34,6 +34,9 @@ type provRunner struct {
 	withKeys bool // print raw store key diffs (C13)
 	prevRaw  map[string]string
 	sentLog  []SentPacket
+	chanSeq  int
+	tryChans []string
+	connOf   map[string]string
 }
 
 func newProvRunner(t *Trace) *provRunner {
@@ -153,7 +156,31 @@ func (p *provRunner) Do(line string) {
 			}
 		}
 	}
+	if op.name == "chantry" || op.name == "chanconfirm" {
+		hops := splitNE(op.s("hops"))
+		if op.name == "chanconfirm" {
+			if r, ok := w.chk.rec(w.ctx, ccv.ProviderPortID, op.s("ch")); ok {
+				hops = r.Hops
+				p.t.obs("env", "chan."+op.s("ch"), strings.Join(r.Hops, "+"))
+			}
+		}
+		for _, h := range hops {
+			var cr ConnRec
+			if w.env.get(w.ctx, "conn/"+h, &cr) {
+				var cl ClientRec
+				if w.env.get(w.ctx, "client/"+cr.ClientID, &cl) && !cl.NotTM {
+					p.t.obs("env", "conn."+h, fmt.Sprintf("%s|%s|%d", cr.ClientID, cl.ChainID, cl.Height))
+				} else {
+					p.t.obs("env", "conn."+h, cr.ClientID+"|!|0")
+				}
+			}
+		}
+	}
 	switch op.name {
+	case "mkconn":
+		w.env.set(w.ctx, "conn/"+op.s("conn"), ConnRec{ClientID: op.s("client"), CpConn: "connection-cp"})
+	case "mkclient":
+		w.env.set(w.ctx, "client/"+op.s("client"), ClientRec{ChainID: op.s("chain"), Height: 5, RevNum: 1, NotTM: op.i("nottm") == 1})
 	case "init":
 		toks := op.ints("tokens")
 		sp := w.stk.params(w.ctx)
@@ -533,8 +560,20 @@ func (p *provRunner) snapshotConsumer(ctx sdk.Context, id string) map[string]str
 			ia = 1
 		}
 		m["ps"] = fmt.Sprintf("%d/%d/%d/%d/%d", ps.Top_N, ps.ValidatorSetCap, ps.ValidatorsPowerCap, ps.MinStake, ia)
+		// the lists as recorded in the parameters themselves (the index stores are printed separately)
+		rec := func(as []string) string {
+			var out []int64
+			for _, a := range as {
+				if ca, err := sdk.ConsAddressFromBech32(a); err == nil {
+					out = append(out, p.vidOfCons(ca))
+				}
+			}
+			sort.Slice(out, func(a, b int) bool { return out[a] < out[b] })
+			return joinInts(out)
+		}
+		m["pslists"] = rec(ps.Allowlist) + "|" + rec(ps.Denylist) + "|" + rec(ps.Prioritylist)
 	} else {
-		m["ps"] = "-"
+		m["ps"], m["pslists"] = "-", "-"
 	}
 	lst := func(as []providertypes.ProviderConsAddress) string {
 		var out []int64
